@@ -394,7 +394,9 @@ def tab6(ctx):
                 if s_.get("e") == "lit" and s_.get("lk") == "char":
                     reader_chars.add(s_["lit"])
     writer_chars = set()
-    for n in hirq.walk(rn.hir["body"]):
+    rn_marks_root = hirq.inline_helpers(lib, rn, keep={"asca::word::Word::render_normal", "asca::word::Word::render"}, only_if=lambda cb: any(
+        q["e"] == "mcall" and q["name"] == "push" and hirq.strip(q["args"][0]).get("lk") == "char" for q in hirq.walk(cb.hir["body"])))
+    for n in hirq.walk(rn_marks_root):
         if n["e"] == "mcall" and n.get("name") == "push" and (n.get("def") or "").endswith("String::push"):
             a = hirq.strip(n["args"][0])
             if a.get("e") == "lit" and a.get("lk") == "char":
@@ -705,7 +707,8 @@ def tab6b(ctx):
             raw = False
             if src.get("e") == "lit":
                 via = "literal"
-            elif src.get("e") == "mcall" and (src.get("def") or "") == "asca::word::Word::to_ipa":
+            elif (src.get("e") == "mcall" and (src.get("def") or "") == "asca::word::Word::to_ipa") or (
+                    src.get("e") == "call" and (hirq.strip(src["f"]).get("path") or "") == "asca::word::Word::to_ipa"):
                 via = "to_ipa"
             elif from_txt(src):
                 raw = True
@@ -721,7 +724,9 @@ def tab6b(ctx):
     # the first character of a grapheme
     firsts = [nd for nd in hirq.walk(b.hir["body"]) if nd["e"] == "mcall" and nd["name"] == "to_string" and from_txt(nd["recv"])]
     for nd in firsts:
-        ok = hirq.strip(nd["recv"]).get("e") == "mcall" and (hirq.strip(nd["recv"]).get("def") or "") == "asca::word::Word::to_ipa"
+        rc_ = hirq.strip(nd["recv"])
+        ok = (rc_.get("e") == "mcall" and (rc_.get("def") or "") == "asca::word::Word::to_ipa") or (
+            rc_.get("e") == "call" and (hirq.strip(rc_["f"]).get("path") or "") == "asca::word::Word::to_ipa")
         n += 1
         r.inst("fill_segments: grapheme buffer starts from to_ipa(text char)", fn_loc(b, nd["ln"]), "ok" if ok else "report")
         if not ok:
@@ -1040,7 +1045,10 @@ def rt1(ctx):
     # writer: StressKind -> mark
     W = {}
     first_cond = None
-    for m in hirq.matches(rn):
+    KEEP_R = {"asca::word::Word::render_normal", "asca::word::Word::render"}
+    only_marks = lambda cb: any(n["e"] == "mcall" and n["name"] == "push" and hirq.strip(n["args"][0]).get("lk") == "char" for n in hirq.walk(cb.hir["body"]))
+    rn_root = hirq.inline_helpers(lib, rn, keep=KEEP_R, only_if=only_marks)
+    for m in [n for n in hirq.walk(rn_root) if n["e"] == "match"]:
         if (m.get("sty") or "").endswith("syll::StressKind"):
             for arm in m["arms"]:
                 kinds = [(p.get("path") or "")[len(SKP):] for p in hirq.flat_pats(arm["pat"]) if (p.get("path") or "").startswith(SKP)]
@@ -1075,7 +1083,8 @@ def rt1(ctx):
     ra = ctx.fn(lib, "asca::word::Word::render")
     W2 = {}
     first2 = None
-    for m in hirq.matches(ra):
+    ra_root = hirq.inline_helpers(lib, ra, keep=KEEP_R, only_if=only_marks)
+    for m in [n for n in hirq.walk(ra_root) if n["e"] == "match"]:
         if (m.get("sty") or "").endswith("syll::StressKind"):
             for arm in m["arms"]:
                 kinds = [(p.get("path") or "")[len(SKP):] for p in hirq.flat_pats(arm["pat"]) if (p.get("path") or "").startswith(SKP)]
@@ -1106,8 +1115,8 @@ def rt1(ctx):
         r.report("RT-1|boundary", fn_loc(rn), rn.path,
                  "unstressed syllables are opened by %r under the condition %s; expected '.' for every syllable but the first, and a reader test for it" % (W["Unstressed"], first_cond))
     # length mark
-    wl = [n for n in hirq.walk(rn.hir["body"]) if n["e"] == "mcall" and n["name"] == "push" and hirq.strip(n["args"][0]).get("lit") == "ː"]
-    par = hirq.parent_map(rn.hir["body"])
+    wl = [n for n in hirq.walk(rn_root) if n["e"] == "mcall" and n["name"] == "push" and hirq.strip(n["args"][0]).get("lit") == "ː"]
+    par = hirq.parent_map(rn_root)
     cond_ok = False
     for n in wl:
         x = par.get(id(n))
@@ -1123,7 +1132,7 @@ def rt1(ctx):
     if not ok:
         r.report("RT-1|length", fn_loc(rn), rn.path, "length mark: writer emits 'ː' for a segment equal to its predecessor (%s), reader repeats the last segment on 'ː' (%s)" % (cond_ok and len(wl) == 1, rd_ok))
     # tone
-    wt = [n for n in hirq.walk(rn.hir["body"]) if n["e"] == "if" and any(c["e"] == "binary" and c["op"] == "Ne" and any(f["e"] == "field" and f["name"] == "tone" for f in hirq.walk(c))
+    wt = [n for n in hirq.walk(rn_root) if n["e"] == "if" and any(c["e"] == "binary" and c["op"] == "Ne" and any(f["e"] == "field" and f["name"] == "tone" for f in hirq.walk(c))
                                                                      and hirq.strip(c["b"]).get("lit") == 0 for c in hirq.walk(n["cond"]))]
     w_ok = bool(wt) and any(m["e"] == "mcall" and m["name"] == "to_string" and any(f["e"] == "field" and f["name"] == "tone" for f in hirq.walk(m)) for m in hirq.walk(wt[0]["then"]))
     rt = [n for n in hirq.walk(st.hir["body"]) if n["e"] == "assign" and hirq.strip(n["lhs"]).get("e") == "field" and hirq.strip(n["lhs"])["name"] == "tone"]
